@@ -15,6 +15,7 @@ import (
 	"net"
 	"os"
 	"sort"
+	"strings"
 	"syscall"
 	"time"
 
@@ -240,6 +241,30 @@ func Exchange(conn net.Conn, p *Probe, guard time.Duration) Outcome {
 		return Outcome{Kind: "reply", Reply: reply}
 	}
 	return Outcome{Kind: "noreply"}
+}
+
+// ExchangeSolo writes the probe alone (no pipelined sentinel) on a fresh connection and
+// reads one frame. It settles an Exchange that ended in a connection RESET: a server that
+// answers and then closes while the pipelined sentinel is still unread makes the kernel
+// send RST, which can destroy the reply in flight, so "reset" is no evidence either way.
+// With the probe alone nothing is unread when the server closes, so the reply arrives.
+func ExchangeSolo(conn net.Conn, p *Probe, guard time.Duration) Outcome {
+	_ = conn.SetWriteDeadline(time.Now().Add(guard))
+	_, _ = conn.Write(append(append([]byte(nil), p.Prefix...), p.Frame...))
+	_ = conn.SetReadDeadline(time.Now().Add(guard))
+	f, err := readFrame(conn)
+	if err != nil {
+		return Outcome{Kind: "closed", Err: err}
+	}
+	if len(f) < 4 || int32(binary.BigEndian.Uint32(f[:4])) != p.Corr {
+		return Outcome{Kind: "wrong-correlation", Reply: f, Err: fmt.Errorf("solo reply does not carry the probe's correlation id")}
+	}
+	return Outcome{Kind: "reply-then-closed", Reply: f}
+}
+
+// IsReset reports whether an Exchange ended in a TCP reset.
+func IsReset(err error) bool {
+	return err != nil && (errors.Is(err, syscall.ECONNRESET) || strings.Contains(err.Error(), "connection reset"))
 }
 
 // requestFlexible: first from the independent table, else from the codec.
